@@ -45,7 +45,7 @@ def _job(args):
     extract.reset_cache()
     mod, _ = load_contracts(prop)
     reg = mod.REG
-    cfg = Config(feas_ms=2000, obl_ms=10000 if tier == "quick" else 60000)
+    cfg = Config(feas_ms=2000, obl_ms=10000 if tier == "quick" else 60000, max_paths=4000 if tier == "quick" else 60000)
     t0 = time.time()
     try:
         if kind == "contract":
@@ -157,6 +157,7 @@ def main(argv=None):
     src = a.src
     if src:
         os.environ["PYVC_SRC"] = src
+    os.environ["PYVC_TIER"] = a.tier  # descriptors widen their bounded scopes in the thorough tier (contracts._widen)
     t0 = time.time()
 
     if a.replay:
